@@ -15,6 +15,9 @@ Driver for C04.  A case is one history on one PodGroupManager + fake framework h
   podadd p g node 0 anno [minOK min pol alias mode shape k g1..gk]    onPodAdd    (anno=1: annotation way, config follows)
   podupd p g node term anno [...]        onPodUpdate (term=1: terminated pod)
   poddel p g [shape]                     onPodDelete        (shape as for pgdel)
+  rsvadd p g req sched phase anno [...]  a Reservation that is a gang member, through the reservation -> pod adapter the
+  rsvupd p g req sched phase anno [...]  manager registers (req: spec.template.spec.nodeName set; sched: status.nodeName
+  rsvdel p g shape                       set; phase 0 active 1 succeeded 2 failed); the tail as for podadd
   permit p g | unres p g | postbind p g | postfilter p g
   nogang k p                             entry point k on a pod without gang name (k=0 Permit -> verdict 3)
   # ...                                  trace record of the concurrency stream (observed order of completed calls of two
@@ -73,6 +76,18 @@ def parsePod : List Int → Option Op
       | [] => none
   | _ => none
 
+/-- `rsvadd / rsvupd p g req sched phase anno [...]`: a Reservation event, turned into the pod event by the model's
+    adapter (deliverRsv, the code's rule 0) -/
+def parseRsv (upd : Bool) : List Int → Option Op
+  | p :: g :: req :: sched :: phase :: rest =>
+    if p < 0 ∨ g < 0 ∨ phase < 0 ∨ phase > 2 ∨ req < 0 ∨ req > 1 ∨ sched < 0 ∨ sched > 1 then none else
+    -- parse the tail exactly as a pod event of a live pod would be parsed, then let the adapter decide
+    match parsePod (p :: g :: 0 :: 0 :: rest) with
+    | some (.podEvt _ _ _ anno) =>
+      some (deliverRsv 0 upd { req := req ≠ 0, sched := sched ≠ 0, phase := phase.toNat } p.toNat g.toNat anno)
+    | _ => none
+  | _ => none
+
 def parseOp (line : String) : Option Op :=
   match toks line with
   | kind :: rest =>
@@ -88,6 +103,10 @@ def parseOp (line : String) : Option Op :=
       | "podupd", xs => parsePod xs
       | "poddel", [p, g] => if p < 0 ∨ g < 0 then none else some (.podDel p.toNat g.toNat)
       | "poddel", [p, g, shape] =>
+        if p < 0 ∨ g < 0 ∨ shape < 0 then none else some (deliverDel 0 shape.toNat (.podDel p.toNat g.toNat))
+      | "rsvadd", xs => parseRsv false xs
+      | "rsvupd", xs => parseRsv true xs
+      | "rsvdel", [p, g, shape] =>
         if p < 0 ∨ g < 0 ∨ shape < 0 then none else some (deliverDel 0 shape.toNat (.podDel p.toNat g.toNat))
       | "permit", [p, g] => if p < 0 ∨ g < 0 then none else some (.permit p.toNat g.toNat)
       | "unres", [p, g] => if p < 0 ∨ g < 0 then none else some (.unreserve p.toNat g.toNat)
